@@ -460,7 +460,9 @@ def srcSimple (fuel : Nat) (io : Option Data) (id : Nat) (chans : Int) : M SRes 
     if chans ≤ 0 || d.inFrames.msb || d.outFrames.msb then M.pure .refused
     else
       -- `soxr_create(1, src_ratio, …)`: `io_ratio = output_rate != 0 ? 1 / src_ratio : -1`
-      let r := if isZero d.ratio then minusOne else recip d.ratio
+      -- (a quotient of two non-zero rates that underflows to 0 - `src_ratio` infinite or huge - is -1 as well: F43, /repo a64ac15)
+      let r0 := if isZero d.ratio then minusOne else recip d.ratio
+      let r := if isZero r0 then minusOne else r0
       let o0 : Obj := { fresh id chans.toNat false with ioRatio := r }
       -- `if (p->num_channels && io_ratio != 0) error = soxr_set_io_ratio(p, io_ratio, 0)`
       M.bind (if isZero r then M.pure (o0, none) else setIoRatio o0 r 0) fun oe =>
